@@ -25,8 +25,8 @@ from sim.clock import Clock, SimTimeout  # noqa: E402
 CHILD_WALL_S = 400         # harness safety only; never a verdict
 SHRINK_EVALS = 500
 SHRINK_TICKS = 25_000_000   # simulated time a single minimisation may spend
-MAX_BAD_CASES = 10          # a round stops early once this many cases violated (keeps broken trees cheap)
-ROUND_TICK_CAP = 150_000_000 # once something violated: simulated time after which a round stops (a clean round needs < 10 M)
+MAX_BAD_CASES = 8           # a round stops early once this many cases violated (keeps broken trees cheap)
+ROUND_TICK_CAP = 100_000_000 # once something violated: simulated time after which a round stops (a clean round needs < 10 M)
 MAX_REPORTED = 4            # distinct (class, site) violations minimised per round
 
 
